@@ -1,6 +1,7 @@
 package main
 
 import (
+	"encoding/json"
 	"flag"
 	"fmt"
 	"os"
@@ -44,6 +45,22 @@ func main() {
 		os.Exit(runDump(*repo, *verif, *fn, *obl))
 	case "list":
 		os.Exit(runList(*repo, *verif, *prop))
+	case "registrations":
+		_, all, err := loadContracts(*repo, "github.com/arnodel/golua")
+		if err != nil {
+			fmt.Fprintln(os.Stderr, err)
+			os.Exit(2)
+		}
+		eng, err := loadEngine(*repo, *verif, []string{"github.com/arnodel/golua/..."}, "verif", fragOverlay(*repo, all, nil))
+		if err != nil {
+			fmt.Fprintln(os.Stderr, err)
+			os.Exit(2)
+		}
+		for _, ri := range newEffGraph(eng).registrationInfos() {
+			b, _ := json.Marshal(ri)
+			fmt.Println(string(b))
+		}
+		os.Exit(0)
 	case "replay":
 		if fs.NArg() < 1 {
 			usage()
